@@ -1598,7 +1598,16 @@ func runC17Round5(c *Ctx) {
 		}
 	}
 	if n == 0 {
-		c.Undecided("LoadOrStore of the shard table", "-", "not found")
+		// the shard is published with Store after it was started (decided by R13): nothing stored can be left unstarted
+		stores := 0
+		for _, fn := range p.AllSrcFuncs(pk) {
+			stores += len(callsNamed(fn, func(f *types.Func) bool { return f.FullName() == "(*sync.Map).Store" }))
+		}
+		if stores > 0 {
+			c.OK("shards are published with Store, after their start (see R13)", "-", "no store-then-start window")
+		} else {
+			c.Undecided("publication of the shard table", "-", "not found")
+		}
 	}
 
 	c.Rule("R10", "PROV", "incoming data is appended behind what is pending: in the add methods of the pending batches every MoveAndAppendTo moves FROM the incoming payload INTO the batch's own container – never the other way round, which would put older pending items behind newer ones (the timer restart after a size-triggered send relies on arrival order)", 3)
@@ -2544,5 +2553,379 @@ func runC14NoMarshalInDecode(c *Ctx) {
 	}
 	if n == 0 {
 		c.Undecided("decode hooks of confmap", "-", "none found")
+	}
+}
+
+// ---------- C20.R18: every way out of the run loop shuts the configuration providers down ----------
+func runC20ProviderShutdown(c *Ctx) {
+	p := c.P
+	c.Rule("R18", "PAIR", "a run that reached its control loop ends Closed with the configuration providers shut down, however it ends: every return of Run that lies inside or behind the loop passes a call that (directly or through a helper of the collector) shuts the configuration provider down – also the returns taken when a reload fails", 3)
+	m := p.LookupMethod("otelcol", "Collector", "Run")
+	opk := p.Pkg("otelcol")
+	if m == nil || opk == nil {
+		c.Anchor("Collector.Run")
+		return
+	}
+	fn := p.SSAFunc(m)
+	// helpers that shut the provider down on every path
+	shuts := map[*ssa.Function]bool{}
+	isProvShut := func(ci ssa.CallInstruction) bool {
+		f := calleeOf(ci)
+		return f != nil && f.Name() == "Shutdown" && strings.Contains(f.FullName(), "ConfigProvider")
+	}
+	for _, g := range p.AllSrcFuncs(opk) {
+		if g.Parent() != nil {
+			continue
+		}
+		ps := calls(g, isProvShut)
+		if len(ps) == 0 {
+			continue
+		}
+		via := map[ssa.Instruction]bool{}
+		for _, x := range ps {
+			via[x.(ssa.Instruction)] = true
+		}
+		if esc, _ := reachesReturnWithout(g, nil, via); !esc {
+			shuts[g] = true
+		}
+	}
+	via := map[ssa.Instruction]bool{}
+	for _, ci := range calls(fn, func(ci ssa.CallInstruction) bool {
+		if isProvShut(ci) {
+			return true
+		}
+		sf := staticCalleeFn(ci)
+		return sf != nil && shuts[sf]
+	}) {
+		via[ci.(ssa.Instruction)] = true
+	}
+	// the loop: the select
+	var sel *ssa.Select
+	allInstrs(fn, func(in ssa.Instruction) {
+		if s, ok := in.(*ssa.Select); ok && s.Blocking {
+			sel = s
+		}
+	})
+	if sel == nil {
+		c.Undecided("control loop of Run", p.Pos(fn.Pos()), "select not found")
+		return
+	}
+	n := 0
+	for _, r := range returnsOf(fn) {
+		if !canReach(sel, r, nil) {
+			continue
+		}
+		n++
+		ok := !canReach(sel, r, via)
+		c.Check(ok, fmt.Sprintf("return #%d of Run behind the control loop shuts the providers down", n), p.Pos(r.Pos()), "passes the provider shutdown", "this way out of the loop returns without shutting the configuration provider down and without reaching Closed: after a reload to a configuration that cannot be brought up, GetState() stays Starting for ever, the providers and the last Retrieved value are never closed")
+	}
+	if n == 0 {
+		c.Undecided("returns of Run behind the control loop", "-", "none found")
+	}
+}
+
+// ---------- C01.R21 (known finding): a failed dispatch transaction deletes the item ----------
+func runC01DispatchError(c *Ctx, a *pqAnchors) {
+	p := c.P
+	c.Rule("R21", "GATE", "a request disappears from storage only after a completed hand-off: when the storage transaction that dispatches an item fails (the item was not even read), the dequeue does not delete the item – only an item that was read and cannot be decoded may be dropped", 1)
+	if a == nil || a.dequeue == nil {
+		c.Anchor("persistent queue dequeue")
+		return
+	}
+	fn := a.dequeue
+	writes := func(g *ssa.Function) bool {
+		hit := false
+		for _, ci := range calls(g, func(ci ssa.CallInstruction) bool {
+			cc := ci.Common()
+			return cc.IsInvoke() && cc.Method.Pkg() != nil && cc.Method.Pkg().Path() == pkgStorage && (cc.Method.Name() == "Batch" || cc.Method.Name() == "Delete")
+		}) {
+			_ = ci
+			hit = true
+		}
+		return hit
+	}
+	n := 0
+	for _, sc := range calls(fn, func(ci ssa.CallInstruction) bool {
+		cc := ci.Common()
+		return cc.IsInvoke() && cc.Method.Pkg() != nil && cc.Method.Pkg().Path() == pkgStorage && cc.Method.Name() == "Batch"
+	}) {
+		n++
+		// paths from the failed transaction (err != nil directly from the call) to a deleting helper without passing the decode
+		var decode []ssa.Instruction
+		for _, d := range calls(fn, func(ci ssa.CallInstruction) bool {
+			return ci.Common().IsInvoke() && ci.Common().Method.Name() == "Unmarshal"
+		}) {
+			decode = append(decode, d.(ssa.Instruction))
+		}
+		avoid := map[ssa.Instruction]bool{}
+		for _, d := range decode {
+			avoid[d] = true
+		}
+		var bad ssa.Instruction
+		for _, w := range calls(fn, func(ci ssa.CallInstruction) bool {
+			sf := staticCalleeFn(ci)
+			return sf != nil && sf != fn && recvNamedOfFn(sf) != nil && recvNamedOfFn(sf).Origin() == a.T.Origin() && writes(sf)
+		}) {
+			if canReach(sc.(ssa.Instruction), w.(ssa.Instruction), avoid) {
+				bad = w.(ssa.Instruction)
+			}
+		}
+		c.Check(bad == nil, fmt.Sprintf("failed dispatch transaction #%d in %s keeps the item", n, fnName(fn)), p.Pos(sc.Pos()), "no deleting call reachable without the decode", "the error of the dispatch transaction and the error of decoding the item share one error path that deletes the item ("+posOf(p, bad)+"): after Offer(11), Offer(22) and ONE transient storage error on the dispatch of 11, only 22 is ever delivered and the key of 11 is gone, also after a restart")
+	}
+	if n == 0 {
+		c.Undecided("dispatch transaction of the dequeue", "-", "not found")
+	}
+}
+
+// ---------- third batch: C11.R15, C17.R12/R13, C05.R16 ----------
+func runC11ExtensionHost(c *Ctx) {
+	p := c.P
+	c.Rule("R15", "PROV", "an extension's own status reports are attributed to it like a pipeline component's: the host an extension is started with is obtained from the service's host for that extension instance (a call that takes the instance id), not the bare host that does not implement the status Reporter – otherwise every status an extension reports (a FatalError of its server goroutine) is silently dropped", 1)
+	pk := p.Pkg("service/extensions")
+	if pk == nil {
+		c.Anchor("service/extensions")
+		return
+	}
+	n := 0
+	for _, fn := range p.AllSrcFuncs(pk) {
+		if fn.Parent() != nil || fn.Name() != "Start" || fn.Signature.Recv() == nil {
+			continue
+		}
+		for _, ci := range calls(fn, func(ci ssa.CallInstruction) bool {
+			return ci.Common().IsInvoke() && ci.Common().Method.Name() == "Start" && len(ci.Common().Args) == 2
+		}) {
+			n++
+			wrapped := false
+			for v := range backSlice(ci.Common().Args[1]) {
+				if cc, ok := v.(*ssa.Call); ok {
+					for _, a := range cc.Call.Args {
+						if nt := namedOf(a.Type()); nt != nil && nt.Obj().Name() == "InstanceID" {
+							wrapped = true
+						}
+					}
+				}
+			}
+			c.Check(wrapped, "host handed to the extension in "+fnName(fn)+" is the instance's", p.Pos(ci.Pos()), "derived from a call that takes the instance id", "the extension is started with the bare service host, which is not a status Reporter: componentstatus.ReportStatus(host, …) fails its type assertion – the zpages extension's FatalError (its server died) changes nothing, the watchers see only Starting and OK and nothing reaches the async error channel")
+		}
+	}
+	if n == 0 {
+		c.Undecided("extension Start call", "-", "not found")
+	}
+}
+
+func runC17Batch3(c *Ctx) {
+	p := c.P
+	pk := p.Pkg("processor/batchprocessor")
+	if pk == nil {
+		c.Anchor("processor/batchprocessor")
+		return
+	}
+	c.Rule("R12", "GATE", "a batch processor that was shut down refuses: on the way from Consume* to the hand-over to a shard there is a test of the shutdown signal whose `shut down` side returns an error – data accepted after the shards have drained would be acknowledged and never emitted", 1)
+	n := 0
+	ok := false
+	for _, fn := range p.AllSrcFuncs(pk) {
+		if fn.Parent() != nil {
+			continue
+		}
+		// a non-blocking select (or receive) on the shutdown channel with an error return on that side, in a function that forwards to a consume
+		forwards := len(calls(fn, func(ci ssa.CallInstruction) bool {
+			if ci.Common().IsInvoke() {
+				return ci.Common().Method.Name() == "consume"
+			}
+			f := calleeOf(ci)
+			return f != nil && f.Name() == "consume"
+		})) > 0
+		if !forwards {
+			continue
+		}
+		n++
+		allInstrs(fn, func(in ssa.Instruction) {
+			sel, isSel := in.(*ssa.Select)
+			if !isSel {
+				return
+			}
+			for i, st := range sel.States {
+				if st.Dir != types.RecvOnly {
+					continue
+				}
+				isShut := false
+				for v := range backSlice(st.Chan) {
+					if fa, isFA := v.(*ssa.FieldAddr); isFA && strings.Contains(strings.ToLower(derefStruct(fa.X.Type()).Field(fa.Field).Name()), "shutdown") {
+						isShut = true
+					}
+				}
+				if !isShut {
+					continue
+				}
+				for _, rb := range selectCaseBlocks(fn, sel, i) {
+					for _, r := range returnsOf(fn) {
+						if (rb == r.Block() || rb.Dominates(r.Block())) && len(resultsOf(r)) == 1 && !isNilConst(resultsOf(r)[0]) {
+							ok = true
+						}
+					}
+				}
+			}
+		})
+	}
+	if n == 0 {
+		c.Undecided("functions that forward to a batcher's consume", "-", "none found")
+	} else {
+		c.Check(ok, "Consume* of the batch processor refuses after shutdown", "-", "shutdown test with an error return in front of the hand-over", "nothing between Consume* and `shard.newItem <- data` looks at the shutdown signal: after Shutdown up to NumCPU requests per shard are acknowledged with nil and never emitted, later callers block for ever")
+	}
+
+	c.Rule("R13", "ORD", "a shard is running before anybody else can find it: in the sharded batcher the call that publishes a new shard in the table (Store / LoadOrStore) is dominated by the start of that shard (goroutine started, counted in the WaitGroup) – a concurrent request that finds an unstarted shard enqueues into it, and Shutdown, which waits only for the goroutines it knows, can return before that data is emitted", 1)
+	n = 0
+	for _, fn := range p.AllSrcFuncs(pk) {
+		if fn.Parent() != nil {
+			continue
+		}
+		starts := calls(fn, func(x ssa.CallInstruction) bool { f := calleeOf(x); return f != nil && f.Name() == "start" })
+		for _, ci := range callsNamed(fn, func(f *types.Func) bool {
+			return f.FullName() == "(*sync.Map).Store" || f.FullName() == "(*sync.Map).LoadOrStore"
+		}) {
+			n++
+			dom := false
+			for _, s := range starts {
+				if instrDominates(s.(ssa.Instruction), ci.(ssa.Instruction)) {
+					dom = true
+				}
+			}
+			c.Check(dom, "shard published by "+fnName(fn)+" is already started", p.Pos(ci.Pos()), "start() dominates the publication", "the shard is put into the table before its goroutine is started and counted: a second request for the same combination can enqueue into the uncounted shard and Shutdown returns before that data is emitted (7 of 7 stress runs)")
+		}
+	}
+	if n == 0 {
+		c.Undecided("publication of a shard", "-", "not found")
+	}
+}
+
+func runC05OptionOrder(c *Ctx) {
+	p := c.P
+	c.Rule("R16", "ORD", "the later option wins: WithRetry stores the configuration it is given on every path – a disabled configuration passed after an enabled one switches retrying off, it does not return before the store", 1)
+	pk := p.Pkg("exporter/exporterhelper/internal")
+	if pk == nil {
+		c.Anchor("exporterhelper/internal")
+		return
+	}
+	n := 0
+	for _, fn := range p.AllSrcFuncs(pk) {
+		if fn.Parent() == nil || fn.Parent().Name() != "WithRetry" {
+			continue
+		}
+		n++
+		via := map[ssa.Instruction]bool{}
+		allInstrs(fn, func(in ssa.Instruction) {
+			if st, ok := in.(*ssa.Store); ok {
+				if fa, ok := st.Addr.(*ssa.FieldAddr); ok && strings.Contains(strings.ToLower(derefStruct(fa.X.Type()).Field(fa.Field).Name()), "retrycfg") {
+					via[st] = true
+				}
+			}
+		})
+		esc, r := reachesReturnWithout(fn, nil, via)
+		c.Check(len(via) > 0 && !esc, "WithRetry stores its configuration on every path", p.Pos(fn.Pos()), "store of retryCfg before every return", "the option returns before the store when the configuration is disabled ("+posOf(p, r)+"): WithRetry(disabled) after WithRetry(enabled) leaves retrying enabled – 11 attempts instead of 1")
+	}
+	if n == 0 {
+		c.Undecided("WithRetry option", "-", "not found")
+	}
+}
+
+// ---------- C12.R16 ----------
+func runC12DeterministicUnflatten(c *Ctx) {
+	p := c.P
+	c.Rule("R16", "ORD", "one path has one spelling inside a Conf, whatever the source wrote: the constructor that turns a string map into a Conf splits `::` keys itself, at every level and in sorted key order (a merge function of its own handed to the loader, which sorts before it ranges) – the loader's own unflattening only splits top-level keys and does so in map iteration order, so `a::b` next to `a: {…}` would win or lose at random", 1)
+	pk := p.Pkg("confmap")
+	if pk == nil {
+		c.Anchor("confmap")
+		return
+	}
+	var ctor *ssa.Function
+	for _, fn := range p.AllSrcFuncs(pk) {
+		if fn.Parent() == nil && fn.Name() == "NewFromStringMap" {
+			ctor = fn
+		}
+	}
+	if ctor == nil {
+		c.Anchor("confmap.NewFromStringMap")
+		return
+	}
+	var own *ssa.Function
+	for _, ci := range calls(ctor, func(ci ssa.CallInstruction) bool {
+		f := calleeOf(ci)
+		return f != nil && f.Name() == "WithMergeFunc"
+	}) {
+		for _, a := range ci.Common().Args {
+			switch v := a.(type) {
+			case *ssa.Function:
+				own = v
+			case *ssa.MakeClosure:
+				own, _ = v.Fn.(*ssa.Function)
+			}
+		}
+	}
+	sorted := false
+	if own != nil {
+		sorted = len(callsNamed(own, func(f *types.Func) bool {
+			return f.Pkg() != nil && (f.Pkg().Path() == "slices" || f.Pkg().Path() == "sort") && (strings.HasPrefix(f.Name(), "Sort") || f.Name() == "Strings")
+		})) > 0
+	}
+	c.Check(own != nil && sorted, "NewFromStringMap unflattens deterministically", p.Pos(ctor.Pos()), "own merge function that sorts the keys", "the map is loaded with the loader's default unflattening: over 200 runs `Conf.Merge` of {processors: {\"batch::timeout\": 2s}} over {processors: {batch: {timeout: 1s}}} returned 2s 170 times and 1s 30 times; a single source {\"a::b\": 2, a: {c: 3}} lost a::b in 146 of 200 runs")
+}
+
+// ---------- C03.R14 ----------
+func runC03MergedContext(c *Ctx) {
+	p := c.P
+	c.Rule("R14", "PROV", "a merged batch does not live on one caller's context: the function that builds the context of a batch merged from several requests returns a context derived from a fresh root on every path, never one of the contexts it was given – the final flush of Shutdown would otherwise hand the other callers' data to the export function under a context that the first caller has cancelled", 1)
+	pk := p.Pkg("exporter/exporterhelper/internal/queuebatch")
+	if pk == nil {
+		c.Anchor("queuebatch")
+		return
+	}
+	n := 0
+	for _, fn := range p.AllSrcFuncs(pk) {
+		if fn.Parent() != nil || fn.Signature.Recv() != nil || len(fn.Params) != 2 || fn.Signature.Results().Len() != 1 {
+			continue
+		}
+		if !typeIs(fn.Params[0].Type(), "context", "Context") || !typeIs(fn.Params[1].Type(), "context", "Context") || !typeIs(fn.Signature.Results().At(0).Type(), "context", "Context") {
+			continue
+		}
+		n++
+		var bad *ssa.Return
+		for _, r := range returnsOf(fn) {
+			v := strip(resultsOf(r)[0])
+			var walk func(x ssa.Value, d int) bool
+			walk = func(x ssa.Value, d int) bool { // true = can be a parameter
+				if d > 6 {
+					return false
+				}
+				switch y := x.(type) {
+				case *ssa.Parameter:
+					return true
+				case *ssa.Phi:
+					for _, e := range y.Edges {
+						if walk(e, d+1) {
+							return true
+						}
+					}
+				case *ssa.Call:
+					// context.WithValue(parent, …) / WithCancel(parent): follows the parent
+					if f := calleeOf(y); f != nil && f.Pkg() != nil && f.Pkg().Path() == "context" && len(y.Call.Args) > 0 && strings.HasPrefix(f.Name(), "With") {
+						return walk(y.Call.Args[0], d+1)
+					}
+				case *ssa.Extract:
+					return walk(y.Tuple, d+1)
+				case *ssa.MakeInterface:
+					return walk(y.X, d+1)
+				case *ssa.ChangeInterface:
+					return walk(y.X, d+1)
+				}
+				return false
+			}
+			if walk(v, 0) {
+				bad = r
+			}
+		}
+		c.Check(bad == nil, fnName(fn)+" returns a context of its own", p.Pos(fn.Pos()), "rooted in a fresh context on every path", "one path hands back (a child of) a caller's context ("+posOf(p, bad)+"): with wait_for_result the caller that opened the partial batch gives up, and the final flush of Shutdown exports the merged batch – the other callers' data – under that cancelled context")
+	}
+	if n == 0 {
+		c.Undecided("merged-context builder", "-", "not found")
 	}
 }
